@@ -837,6 +837,10 @@ func crlUnit(si int) harness.Unit {
 			nil,
 			{{SerialNumber: big.NewInt(5), RevocationTime: date(2024, 1, 1)}},
 			{{SerialNumber: big.NewInt(5), RevocationTime: date(2024, 1, 1)}, {SerialNumber: new(big.Int).Lsh(big.NewInt(1), 100), RevocationTime: time.Date(2024, 2, 2, 3, 4, 5, 0, time.FixedZone("z", 3600))}},
+			// entries with their own extensions: reasonCode keyCompromise, a critical private extension
+			{{SerialNumber: big.NewInt(7), RevocationTime: date(2024, 1, 1), Extensions: []pkix.Extension{{Id: asn1.ObjectIdentifier{2, 5, 29, 21}, Value: []byte{0x0a, 0x01, 0x01}}}},
+				{SerialNumber: big.NewInt(8), RevocationTime: date(2024, 3, 1)},
+				{SerialNumber: big.NewInt(9), RevocationTime: date(2024, 4, 1), Extensions: []pkix.Extension{{Id: asn1.ObjectIdentifier{2, 5, 29, 21}, Value: []byte{0x0a, 0x01, 0x04}}, {Id: asn1.ObjectIdentifier{1, 3, 6, 1, 4, 1, 55555, 2}, Critical: true, Value: []byte{0x05, 0x00}}}}},
 		}
 		verifyCRL := func(tag, kind string, der []byte, wantAlg gx509.SignatureAlgorithm, rev []pkix.RevokedCertificate, a string) {
 			crl, err := gx509.ParseCRL(der)
@@ -851,6 +855,13 @@ func crlUnit(si int) harness.Unit {
 					g := crl.TBSCertList.RevokedCertificates[i]
 					if g.SerialNumber.Cmp(rev[i].SerialNumber) != 0 || !g.RevocationTime.Equal(rev[i].RevocationTime) {
 						c.Violate("field-roundtrip:"+kind+":revoked-entry", fmt.Sprintf("[%s] entry %d differs", tag, i), nil, nil)
+					}
+					same := len(g.Extensions) == len(rev[i].Extensions)
+					for k := 0; same && k < len(g.Extensions); k++ {
+						same = g.Extensions[k].Id.Equal(rev[i].Extensions[k].Id) && g.Extensions[k].Critical == rev[i].Extensions[k].Critical && bytes.Equal(g.Extensions[k].Value, rev[i].Extensions[k].Value)
+					}
+					if !same {
+						c.Violate("field-roundtrip:"+kind+":revoked-entry-extensions", fmt.Sprintf("[%s] entry %d comes back with %d extensions, %d were put in", tag, i, len(g.Extensions), len(rev[i].Extensions)), nil, nil)
 					}
 				}
 			}
@@ -901,7 +912,7 @@ func crlUnit(si int) harness.Unit {
 				verifyCRL(tag, "revocationlist", der, expectedAlg(s, a), rev, a.name)
 			}
 		}
-		c.Sample(fmt.Sprintf("CreateCRL and CreateRevocationList x 9 algorithms x 3 revoked sets with signer %s", s.name))
+		c.Sample(fmt.Sprintf("CreateCRL and CreateRevocationList x 9 algorithms x 4 revoked sets (one with per-entry extensions) with signer %s", s.name))
 	}}
 }
 
